@@ -150,7 +150,7 @@ def run_call(fn_obj, fn_ir, recipe, glb, script=None, leave=None, leave_at=0):
     try:
         res = fn_obj(*args, **kwargs)
     except BaseException as e:  # noqa
-        if isinstance(e, (KeyboardInterrupt, SystemExit)):
+        if isinstance(e, (KeyboardInterrupt, SystemExit, Timeout)):
             raise
         out["result"] = ("exc", type(e).__name__, nrepr(getattr(e, "args", ())))
         out["exc_obj"] = e
@@ -202,7 +202,7 @@ def drive(g, script, out, leave=None, leave_at=0):
             out["ret_obj"] = e.value
             return ("stop", nrepr(e.value))
         except BaseException as e:  # noqa
-            if isinstance(e, (KeyboardInterrupt, SystemExit)):
+            if isinstance(e, (KeyboardInterrupt, SystemExit, Timeout)):
                 raise
             out["steps"].append(("exc", type(e).__name__, nrepr(getattr(e, "args", ()))))
             out["exc_obj"] = e
